@@ -740,13 +740,19 @@ class C18(Family):
     # control/timeresp.py:_process_time_response and control/lti.py:_process_frequency_response on
     # every run and proved equal to the models processTime / processFreq
     extra_modules = ["CtrlVerif.Props.C18Gen", "CtrlVerif.Props.C18Perm"]
+    # second part of the tie (tag py2lean-getitem): the data properties of TimeResponseData (control/timeresp.py)
+    # and FrequencyResponseData (control/frdata.py) are regenerated as Generated/ResponseTime|ResponseFreq.lean
+    # and proved equal to the models TRD.outputs/states/inputs/iter/len, RespFRD.magnitude/... in Props/C18GenProps.lean
+    extra_modules += ["CtrlVerif.Props.C18GenProps"]
 
     def pre_build(self):
         import os
-        from core import py2lean, leanproj
+        from core import py2lean, py2lean_getitem, leanproj
         repo = os.environ.get("VERIF_REPO") or "/repo"
         problems, self.gen_info = py2lean.regenerate_arrays(repo, leanproj.LEAN)
-        return problems
+        p2, i2 = py2lean_getitem.regenerate_c18(repo, leanproj.LEAN)
+        self.gen_info.update(i2)
+        return problems + p2
 
     exhaustive = True
     externals = ["numpy squeeze/transpose/indexing semantics (modelled on (shape, flat data), validated "
